@@ -41,6 +41,11 @@ func runC01(c *Check) {
 	// the library's own middlewares sit inside the stages: none of them turns a failure into a success or drops outputs
 	c12All(c, P+".M12")
 	c19All(c, P+".M19")
+	// which middlewares and decorators wrap a stage is part of what the stage does with a message: a foreign handler's
+	// InstantAck, or a deduplicating decorator applied twice, acks what was never published
+	if r2 := c.routerRoles2(P + ".M09"); r2 != nil {
+		c09All(c, P+".M09", r2)
+	}
 	// O5 NO-INVENTION: provenance of every message handed to the deliver function
 	var fanMsg *ssa.Parameter
 	if ps := ParamsOfType(g.Fan, tMessagePtr); len(ps) == 1 {
